@@ -102,6 +102,10 @@ def mk_ext(kind: str, args: List[Term]) -> Term:
     return (kind, tuple(sorted(flat, key=tkey)))
 
 
+OPERATOR_CMP = {"operator.lt": "<", "operator.le": "<=", "operator.gt": ">", "operator.ge": ">=", "operator.eq": "==",
+                "operator.ne": "!=", "_operator.lt": "<", "_operator.gt": ">"}
+
+
 TAGS = {
     "const", "K", "self", "param", "free", "builtin", "mod", "attr", "idx", "slice", "call", "new",
     "bin", "neg", "un", "not", "cmp", "and", "or", "max", "min", "iter", "iterproj", "phi", "sel",
@@ -149,7 +153,10 @@ def reads_field(t: Term, fields, owner: Optional[str] = None) -> bool:
     if tag == "attr":
         if t[2] in fields:
             ok = owner_kind(t[1])
-            if owner is None or ok is None or ok == owner:
+            if owner == "!heap":
+                if ok != "heap":
+                    return True
+            elif owner is None or ok is None or ok == owner:
                 return True
         return reads_field(t[1], fields, owner)
     if tag == "call":
@@ -324,6 +331,15 @@ def module_literal(mi, name: str) -> Optional[Term]:
             items = [conv(x) for x in n.elts]
             if all(i is not None for i in items):
                 return ("tuple", tuple(items))
+        if isinstance(n, ast.Name) and n.id in mi.imports:
+            return ("mod", mi.imports[n.id])
+        if isinstance(n, ast.Attribute) and isinstance(n.value, ast.Name) and n.value.id in mi.imports:
+            return ("mod", f"{mi.imports[n.value.id]}.{n.attr}")
+        if isinstance(n, ast.Dict) and all(k is not None for k in n.keys):
+            # a module-level dispatch table {literal: imported function / literal}
+            items = [(conv(k), conv(v)) for k, v in zip(n.keys, n.values)]
+            if all(k is not None and k[0] == "const" and v is not None for k, v in items):
+                return ("dict", tuple(items))
         return None
 
     return conv(v)
@@ -373,6 +389,7 @@ def elem_of(dom: Term, lid: int) -> Term:
 
 
 HEAP_FIELDS = {"cost", "color", "p", "pos", "last"}
+HEAP_ARRAYS = {"cost", "color", "p", "pos"}
 CONTAINER_MUTATORS = {"append", "insert", "extend", "pop", "remove", "clear", "sort", "reverse",
                       "fill", "put", "resize", "update"}
 
@@ -403,6 +420,66 @@ def _direct_writes(stmts) -> Tuple[set, set]:
             elif isinstance(n, ast.Call) and isinstance(n.func, ast.Name):
                 calls.add(n.func.id)
     return out, calls
+
+
+def _direct_rebinds(stmts) -> set:
+    """Attribute names that are REBOUND in a block (`x.f = v`, `x.f += v`, `for x.f in ...`), as opposed to written
+    into (`x.f[i] = v`, `x.f.append(v)`)."""
+    out = set()
+    for s in stmts:
+        for n in ast.walk(s):
+            tgts = []
+            if isinstance(n, ast.Assign):
+                tgts = n.targets
+            elif isinstance(n, (ast.AugAssign, ast.AnnAssign)):
+                tgts = [n.target]
+            elif isinstance(n, ast.For):
+                tgts = [n.target]
+            for t in tgts:
+                for e in ([t] if not isinstance(t, (ast.Tuple, ast.List)) else t.elts):
+                    if isinstance(e, ast.Attribute):
+                        out.add(e.attr)
+    return out
+
+
+def rebind_summaries(repo: Repo) -> Dict[str, set]:
+    """method/function name -> attribute names it may rebind (transitively, by name)."""
+    cached = getattr(repo, "_rebind_summaries", None)
+    if cached is not None:
+        return cached
+    direct: Dict[str, set] = {}
+    calls: Dict[str, set] = {}
+    for fi in repo.all_functions():
+        if fi.decorators and ("property" in fi.decorators or any(d.endswith(".setter") for d in fi.decorators)):
+            continue
+        w = _direct_rebinds(fi.node.body)
+        _, c = _direct_writes(fi.node.body)
+        w = set(w) | {x[1:] for x in w if x.startswith("_")}
+        direct.setdefault(fi.name, set()).update(w)
+        calls.setdefault(fi.name, set()).update(c)
+    summ = {k: set(v) for k, v in direct.items()}
+    changed = True
+    while changed:
+        changed = False
+        for name, cs in calls.items():
+            for c in cs:
+                if c in summ and c != name:
+                    add = summ[c] - summ[name]
+                    if add:
+                        summ[name] |= add
+                        changed = True
+    repo._rebind_summaries = summ
+    return summ
+
+
+def rebound_fields(stmts: List[ast.stmt], repo: Repo = None) -> set:
+    out = set(_direct_rebinds(stmts))
+    if repo is not None:
+        summ = rebind_summaries(repo)
+        _, calls = _direct_writes(stmts)
+        for c in calls:
+            out |= summ.get(c, set())
+    return out
 
 
 def write_summaries(repo: Repo) -> Dict[str, set]:
@@ -881,7 +958,31 @@ class Walker:
         return li
 
     def _loop_body(self, li: LoopInfo, body: List[ast.stmt], env: Dict[str, Term], extra: List[str]):
-        self.invalidate(mutated_fields(body, self.repo), env)
+        mf = mutated_fields(body, self.repo)
+        rb = rebound_fields(body, self.repo)
+        # fields that are only written INTO keep references to their containers valid (`costs = h.cost`)
+        self.invalidate({f: c for f, c in mf.items() if f not in rb}, env, elements_only=True)
+        # rebinding stores whose receiver is not a queue object (`node.cost = v`) cannot rebind a queue's arrays
+        direct_nonheap = set()
+        direct_other = set()
+        for st in body:
+            for n in ast.walk(st):
+                tg = []
+                if isinstance(n, ast.Assign):
+                    tg = n.targets
+                elif isinstance(n, (ast.AugAssign, ast.AnnAssign)):
+                    tg = [n.target]
+                for t0 in tg:
+                    for x in ([t0] if not isinstance(t0, (ast.Tuple, ast.List)) else t0.elts):
+                        if isinstance(x, ast.Attribute):
+                            r = x.value
+                            is_heap = isinstance(r, ast.Name) and r.id in env and owner_kind(env[r.id]) == "heap"
+                            (direct_other if is_heap else direct_nonheap).add(x.attr)
+        via_calls = rb - _direct_rebinds(body)
+        whole = {f: c for f, c in mf.items() if f in rb}
+        nonheap_only = {f: c for f, c in whole.items() if f in direct_nonheap and f not in direct_other and f not in via_calls}
+        self.invalidate(nonheap_only, env, owner="!heap")
+        self.invalidate({f: c for f, c in whole.items() if f not in nonheap_only}, env)
         names = [n for n in assigned_names(body) if n not in extra]
         init = {n: env.get(n, ("undef",)) for n in names}
         for n in names:
@@ -1099,7 +1200,20 @@ class Walker:
             return self.subst.get(t, t)
         if isinstance(e, ast.Subscript):
             base = self.ev(e.value, env)
-            return ("idx", base, self.ev_index(e.slice, env))
+            ix = self.ev_index(e.slice, env)
+            # the last component of a string: s.rsplit(sep, n >= 1)[-1] and s.rpartition(sep)[2] are s.split(sep)[-1]
+            if base[0] == "call" and base[1][0] == "attr" and not base[3]:
+                recv, meth, a = base[1][1], base[1][2], base[2]
+                if meth == "rsplit" and ix == ("const", -1) and len(a) == 2 and a[1][0] == "const" \
+                        and isinstance(a[1][1], int) and a[1][1] >= 1:
+                    return ("idx", ("call", ("attr", recv, "split"), (a[0],), ()), ("const", -1))
+                if meth == "rpartition" and ix in (("const", -1), ("const", 2)) and len(a) == 1:
+                    return ("idx", ("call", ("attr", recv, "split"), (a[0],), ()), ("const", -1))
+            if base[0] == "dict" and ix[0] == "const":
+                hit = [v for k, v in base[1] if k == ix]
+                if len(hit) == 1:
+                    return hit[0]
+            return ("idx", base, ix)
         if isinstance(e, ast.Call):
             return self.call(e, env)
         if isinstance(e, ast.BinOp):
@@ -1248,6 +1362,17 @@ class Walker:
                 args.append(v)
         args = tuple(args)
         kwargs = tuple((k.arg or "**", self.ev(k.value, env)) for k in e.keywords)
+        # D.get(k[, default]) on a dispatch table with a constant key
+        if fn[0] == "attr" and fn[2] == "get" and fn[1][0] == "dict" and 1 <= len(args) <= 2 and not kwargs \
+                and args[0][0] == "const":
+            hit = [v for k, v in fn[1][1] if k == args[0]]
+            if len(hit) == 1:
+                return hit[0]
+            if not hit and all(k[0] == "const" for k, _ in fn[1][1]):
+                return args[1] if len(args) == 2 else ("const", None)
+        # operator.lt(a, b) and friends are the comparisons themselves
+        if fn[0] == "mod" and fn[1] in OPERATOR_CMP and len(args) == 2 and not kwargs:
+            return mk_cmp(OPERATOR_CMP[fn[1]], args[0], args[1])
         # local functions: the body is walked in the environment of the call site (same scope)
         r = self.call_closure(fn, args, kwargs, e, env)
         if r is not None:
@@ -1301,7 +1426,9 @@ class Walker:
                 lid = self.loopstack[-1] if self.loopstack else 0
                 t = ("hremove", recv, lid, self._site)
                 self.emit("call", e, target=fn, value=t, name=meth, args=args, kwargs=kwargs)
-                self.invalidate(HEAP_FIELDS, env, cause="call:remove", owner="heap")
+                # the heap API writes INTO its arrays (they are bound once, in __init__) and rebinds only `last`
+                self.invalidate(HEAP_ARRAYS, env, cause="call:remove", owner="heap", elements_only=True)
+                self.invalidate({"last"}, env, cause="call:remove", owner="heap")
                 return t
             if rcls:
                 fi = self.repo.method(rcls, meth)
@@ -1310,11 +1437,15 @@ class Walker:
             t = ("call", fn, args, kwargs)
             self.emit("call", e, target=fn, value=t, name=meth, args=args, kwargs=kwargs)
             if rcls == "Heap" and meth in ("update", "insert"):
-                self.invalidate(HEAP_FIELDS, env, cause="call:" + meth, owner="heap")
+                self.invalidate(HEAP_ARRAYS, env, cause="call:" + meth, owner="heap", elements_only=True)
+                self.invalidate({"last"}, env, cause="call:" + meth, owner="heap")
             elif meth in CONTAINER_MUTATORS and recv[0] == "attr" and rcls is None:
                 self.invalidate({recv[2]}, env, elements_only=True, cause="call:" + meth)
             else:
-                self.invalidate(self.call_writes(meth), env, cause="call:" + meth)
+                ws = self.call_writes(meth)
+                rb = rebind_summaries(self.repo).get(meth, set())
+                self.invalidate(ws & rb, env, cause="call:" + meth)
+                self.invalidate(ws - rb, env, cause="call:" + meth, elements_only=True)
             return t
         # module-level repository functions
         if fn[0] == "mod" and fn[1].startswith("opfython"):
